@@ -35,7 +35,7 @@ func init() {
 		Quick: 5000, Thorough: 500000,
 		Run:        runC08,
 		Rule:       "one run = one generated (type, value, protocol in {binary strict, binary non-strict, compact}) whose encoding E decodes; evaluations = individual faulted decodes: EOF at every offset of E through bytes.Reader and through the simulated reader (both io.ByteReader flavours), a reader error at every offset (all offsets up to 512 bytes, sampled beyond), chunk schedules, 6 byte substitutions per offset, every length / element count set to negative, oversized and out-of-range values, foreign fields of 12 shapes x 4 undeclared ids at every field boundary of every struct level, trailing bytes, each required field removed, each declared top-level field given another wire type, direct Reader method calls on arbitrary bytes. non-trivial = E has at least 2 bytes; distinct = distinct hash of (type, protocol, E)",
-		FaultKinds: []string{"eof-at-offset(bytes.Reader)", "eof-at-offset(simulated reader)", "eof-at-offset(simulated ByteReader)", "reader-error-at-offset", "chunked-delivery", "rot(byte-substitution)", "size-negative", "size-oversized", "size-out-of-range", "foreign-field", "foreign-field-nested-level", "foreign-field-with-corrupted-size", "trailing-bytes", "required-field-removed", "wire-type-changed(strict)", "wire-type-changed(non-strict)", "reader-method-on-arbitrary-bytes", "protocol:binary", "protocol:binary-nonstrict", "protocol:compact", "cut-inside-length", "data+err"},
+		FaultKinds: []string{"eof-at-offset(bytes.Reader)", "eof-at-offset(simulated reader)", "eof-at-offset(simulated ByteReader)", "reader-error-at-offset", "chunked-delivery", "rot(byte-substitution)", "size-negative", "size-oversized", "size-out-of-range", "foreign-field", "foreign-field-nested-level", "foreign-field-with-corrupted-size", "trailing-bytes", "required-field-removed", "failed-decode-then-decode", "wire-type-changed(strict)", "wire-type-changed(non-strict)", "reader-method-on-arbitrary-bytes", "scaling-probe(n vs 8n elements)", "protocol:binary", "protocol:binary-nonstrict", "protocol:compact", "cut-inside-length", "data+err"},
 		ProbeNames: []string{"messages", "precondition-failed(skipped)", "struct-levels>1", "E>=128B", "required-fields", "alloc-precise-samples", "eof-k0", "sites", "reference-parse-failed(structural operators skipped)"},
 		Real:       []string{"thrift.Unmarshal, thrift.Decoder (strict and non-strict), binary and compact Readers compiled from /repo's working tree (uninstrumented)"},
 		Model:      []string{"storage/transport medium (fault operators over the encoded bytes)", "io.Reader (simio.Reader with and without io.ByteReader)", "reference thrift parser/serialiser for both protocols (verifsim/ref) used to locate sizes and struct levels and to build foreign fields, removed fields and retyped fields"},
@@ -55,6 +55,9 @@ type c08Scenario struct {
 	Proto  int    `json:"proto"` // 0 binary strict, 1 binary non-strict, 2 compact
 	Input  []byte `json:"input"`
 	Base   []byte `json:"base,omitempty"`
+	// Prelude, when present, is decoded first and its outcome ignored (history:
+	// a failed decode of the same type before the one that is judged).
+	Prelude []byte `json:"prelude,omitempty"`
 	// Expect: "" (no panic / bounded only), "same-as-base", "error", "unexpected-eof", "missing-field", "type-mismatch(strict)"
 	Expect string `json:"expect,omitempty"`
 }
@@ -322,6 +325,11 @@ func runC08(r *core.Run) {
 	if r.Scenario != nil {
 		c08RunScenario(r)
 		return
+	}
+	if t.Chance(1, 60) {
+		if !c08Scaling(r) {
+			return
+		}
 	}
 	ty := c08Type(t)
 	pi := t.Intn(3)
@@ -694,6 +702,14 @@ func runC08(r *core.Run) {
 			tree.Fields = nf
 			m := ref.ThriftAppend(nil, &tree, compact, stop3)
 			tree.Fields = saved
+			// history: a decode of the same type that fails after it has read the
+			// required fields comes first (state kept per type must not leak)
+			if len(e) > 1 {
+				if _, _, ok := c.decode(e[:len(e)-1], c08Mode{}, "torn"); !ok {
+					return
+				}
+				r.Fault("failed-decode-then-decode")
+			}
 			_, err, ok := c.decode(m, c08Mode{}, "required-removed")
 			if !ok {
 				return
@@ -701,6 +717,11 @@ func runC08(r *core.Run) {
 			r.Fault("required-field-removed")
 			var mf *thrift.MissingField
 			if !errors.As(err, &mf) {
+				defer func() {
+					if sc, ok := r.ScenarioOut.(*c08Scenario); ok && len(e) > 1 {
+						sc.Prelude = e[:len(e)-1]
+					}
+				}()
 				fail("missing-field", "missing-required-not-reported", m, "missing-field", "required field %d removed from the encoding: expected *thrift.MissingField, got %v (%s, type %s)\ninput=%x", id, err, thriftProtoNames[pi], ty.name, clip(m, 300))
 				return
 			}
@@ -850,6 +871,11 @@ func c08RunScenario(r *core.Run) {
 		c.readerMethods(sc.Input)
 		return
 	}
+	if sc.Prelude != nil {
+		if _, _, ok := c.decode(sc.Prelude, c08Mode{}, "scenario-prelude"); !ok {
+			return
+		}
+	}
 	m := c08Mode{}
 	if sc.Expect == "type-mismatch(strict)" {
 		m = c08Mode{strict: true, decoder: true}
@@ -902,6 +928,72 @@ func c08RunScenario(r *core.Run) {
 func warmThrift(p thrift.Protocol, rt reflect.Type) {
 	defer func() { recover() }()
 	thrift.Unmarshal(p, []byte{0}, reflect.New(rt).Interface())
+}
+
+// c08Scaling: a list / map with 8 times as many elements may allocate at most 16
+// times as much (plus slack): linear growth, whatever the constant.
+func c08Scaling(r *core.Run) bool {
+	t := r.T
+	pi := t.Intn(3)
+	compact := pi == 2
+	n := []int{1500, 2048, 3000}[t.Intn(3)]
+	kind := t.Intn(2)
+	build := func(k int) []byte {
+		var root ref.TVal
+		if kind == 0 { // TNode.Kids: list<struct>
+			kids := make([]ref.TVal, k)
+			for i := range kids {
+				kids[i] = ref.TVal{Type: ref.TStruct, Fields: []ref.TField{{ID: 1, Val: ref.TVal{Type: ref.TI64, I: int64(i)}}, {ID: 5, Val: ref.TVal{Type: ref.TBinary, Bin: []byte{}}}}}
+			}
+			root = ref.TVal{Type: ref.TStruct, Fields: []ref.TField{{ID: 3, Val: ref.TVal{Type: ref.TList, Elem: ref.TStruct, Elems: kids}}, {ID: 5, Val: ref.TVal{Type: ref.TBinary, Bin: []byte("n")}}}}
+		} else { // TMisc.Set: set<string>
+			el := make([]ref.TVal, k)
+			for i := range el {
+				el[i] = ref.TVal{Type: ref.TBinary, Bin: []byte(fmt.Sprintf("k%d", i))}
+			}
+			root = ref.TVal{Type: ref.TStruct, Fields: []ref.TField{{ID: 1, Val: ref.TVal{Type: ref.TSet, Elem: ref.TBinary, Elems: el}}, {ID: 6, Val: ref.TVal{Type: ref.TStruct}}}}
+		}
+		return ref.ThriftAppend(nil, &root, compact, !compact)
+	}
+	rt := reflect.TypeOf(TNode{})
+	name := "TNode.Kids (list<struct>)"
+	if kind == 1 {
+		rt, name = reflect.TypeOf(TMisc{}), "TMisc.Set (set<string>)"
+	}
+	p := thriftProtos[pi]
+	warmThrift(p, rt)
+	measure := func(in []byte) (uint64, error, string) {
+		x := reflect.New(rt)
+		var err error
+		var pan string
+		before := totalAlloc()
+		func() {
+			defer func() {
+				if e := recover(); e != nil {
+					pan = fmt.Sprintf("%v\n%s", e, stackOfLibrary())
+				}
+			}()
+			err = thrift.Unmarshal(p, in, x.Interface())
+		}()
+		return totalAlloc() - before, err, pan
+	}
+	small, big := build(n), build(8*n)
+	a1, e1, p1 := measure(small)
+	a8, e8, p8 := measure(big)
+	r.Evaluations += 2
+	r.Fault("scaling-probe(n vs 8n elements)")
+	if p1 != "" || p8 != "" {
+		r.Fail("panic", "decode-panic:"+panicSite(p1+p8), "thrift.Unmarshal panicked on %d / %d elements of %s: %s%s", n, 8*n, name, p1, p8)
+		return false
+	}
+	if e1 != nil || e8 != nil {
+		core.Harness("C08 scaling probe input rejected (%s, %s): %v %v", thriftProtoNames[pi], name, e1, e8)
+	}
+	if a8 > 16*a1+1<<20 {
+		r.Fail("allocation", "alloc-superlinear", "thrift.Unmarshal (%s) of %s: %d elements (%d bytes) allocate %d bytes, %d elements (%d bytes) allocate %d bytes: 8 times the input costs %.1f times the memory (bound 16x + 1 MiB)", thriftProtoNames[pi], name, n, len(small), a1, 8*n, len(big), a8, float64(a8)/float64(a1+1))
+		return false
+	}
+	return true
 }
 
 func thriftMarshalNoPanic(p thrift.Protocol, v any) (b []byte, err error) {
